@@ -192,7 +192,7 @@ claim("C18", "Lean 4 theorems about a reverse-mode (vjp) model over ASTs regener
       "through log_prob = base + log-det; the public log_prob is never NaN. The AST is regenerated from /repo each run and the interpreter's Float instance is compared with jax.grad "
       "(value and every adjoint) on the boundary-directed set.",
       _TB + " Model/Ad.lean's cotangent rules are a hand model of JAX autodiff (validated, not proved); EF has exact finite arithmetic: overflow (exp of large arguments), rounding "
-      "and signed zeros are outside the model and covered by the correspondence/oracle only; network conditioners and whole factories are covered by the oracle only.", "DESIGN.md §5 C18")
+      "and signed zeros are outside the model and covered by the correspondence/oracle only; the MAF inverse scan, BlockAutoregressiveNetwork and whole factories are covered by the oracle only (network conditioners, spline-transformer couplings and MultivariateNormal have theorems, see SESSION 3 below).", "DESIGN.md §5 C18")
 
 claim("C15", "Lean 4 theorems (all n, batch sizes, split sizes, permutations, epochs) about an index-flow/key-schedule model, proved equal to the loops REGENERATED from the source on every run (py2loop) + exact call-by-call correspondence of both with the real fit_to_data",
       "For every dataset size n, every 0 < n_val < n, every batch_size >= 1, every number of epochs and EVERY family of permutations standing for "
